@@ -318,7 +318,9 @@ def ext_sweep(ev, conf, rng, tier):
             core.log("C10 sweep %s skipped: %s" % (cfg, str(ex)[-200:]))
             continue
         cases, admitted = ext_cases(cfg, lst, anyp, ops, rng, tier)
-        samp = int(os.environ.get("C10_EXT_SAMPLE", "1"))       # development aid: every n-th case only
+        # every n-th case of the thorough sweep lists by default (the lists of six builds at full density take hours of TLC
+        # time; the density that has been run to the end on the unchanged tree is 1/6 .. 1/8); C10_EXT_SAMPLE=1 = all of them
+        samp = int(os.environ.get("C10_EXT_SAMPLE", "1" if quick else "6"))
         if samp > 1:
             cases = [c for j, c in enumerate(cases) if j % samp == 0 or " tower " in c]
         ev.cov["sweep"][cfg] = dict(what=SWEEP.get(cfg, ""), primes=[i for (i, *_r) in lst], towers=admitted,
